@@ -99,12 +99,58 @@ def _work_strings(task):
     return acc
 
 
+def check_reparse_after_consumption(text):
+    """A fresh parser must return a fresh, correct tree for a text even if the tree an earlier parser returned
+    for the same text was meanwhile consumed by rules applied IN PLACE (as the repository's run_rule_tests does)."""
+    from mathy_core.parser import ExpressionParser
+
+    out = []
+    try:
+        s0 = SG.sig(ExpressionParser().parse(text))
+    except Exception:  # noqa
+        return out
+    probe = ExpressionParser().parse(text)
+    todo = []
+    for cname, rule in RW.configs():
+        for index, node in enumerate(RW.inorder(probe)):
+            try:
+                if rule.can_apply_to(node):
+                    todo.append((cname, index))
+            except Exception:  # noqa
+                pass
+    for cname, index in todo:
+        victim = ExpressionParser().parse(text)
+        try:
+            RW.config(cname).apply_to(RW.inorder(victim)[index])
+        except Exception:  # noqa
+            continue
+        try:
+            again = ExpressionParser().parse(text)
+            s1 = SG.sig(again)
+            probs = SG.arity_problems(s1)
+        except Exception as e:  # noqa
+            out.append(("fresh-parser-fails-after-earlier-result-was-rewritten", f"{text!r} after in-place {cname}@{index}: {type(e).__name__}"))
+            continue
+        if s1 != s0 or probs:
+            out.append(("fresh-parser-returns-consumed-tree", f"{text!r}: after an earlier parse result was rewritten in place by {cname}@{index}, "
+                        f"a fresh parser returns {SG.show(s1)} instead of {SG.show(s0)}"))
+            break
+    return out
+
+
 _TEXTS = []
 
 
 def _work_texts(task):
     lo, hi, depth = task
     acc = Acc()
+    if depth == "consume":
+        for i in range(lo, hi):
+            acc.count("roundtrips")
+            acc.count("reparse_after_consumption")
+            for kind, detail in check_reparse_after_consumption(_TEXTS[i]):
+                acc.violation(kind, {"text": _TEXTS[i], "trace": [], "mode": "consume"}, detail)
+        return acc
     for i in range(lo, hi):
         text = _TEXTS[i]
         RW.reset_configs()
@@ -149,7 +195,7 @@ def run(tier, seed):
     t1, _ = steps.start_texts(tier, "expr")
     t2, _ = steps.start_texts(tier, "eqn")
     mag0 = X.magnitude_texts_static()
-    mag1 = X.magnitude_texts_fold()
+    mag1 = X.magnitude_texts_fold() + X.power_nests()
     texts = list(dict.fromkeys(mag0 + mag1 + t1 + t2))
     if tier == "thorough":
         texts += X.uniform(5, leaves=["2", "-3", "x"], unary=True)
@@ -159,6 +205,8 @@ def run(tier, seed):
     assert texts[:n1] == mag0 + mag1
     tt = [(i, min(i + 40, n0), 0) for i in range(0, n0, 40)] + [(i, min(i + 40, n1), 1) for i in range(n0, n1, 40)]
     tt += [(i, min(i + 300, n), depth) for i in range(n1, n, 300)]
+    # fresh-parser re-parse after in-place consumption, on every 40th text
+    tt += [(i, i + 1, "consume") for i in range(n1, n, 40 if tier == "quick" else 10)]
     k = seed % len(tt)
     tt = tt[k:] + tt[:k]
     a2 = merge_all(par.pmap(_work_texts, tt))
@@ -199,6 +247,8 @@ def replay(case):
 
 
 def _replay_direct(case):
+    if case.get("mode") == "consume":
+        return check_reparse_after_consumption(case["text"])
     roots = RW.run_trace(case["text"], case["trace"])
     tree = roots[-1]
     if roundtrip(tree) is None:
